@@ -71,10 +71,12 @@ Definition remove_node (bins : list Z) (m : mem) (node : Z) : list Z * mem :=
 
 Definition next_adj (m : mem) (n : Z) : Z := w64 (w64 (n + NODE) + n_size m n).
 
+(* repair d9328b9: the end node of a region is marked used too, but it is the only used node of
+   size 0; the address just past it is not an allocation *)
 Definition get_ptr_node (m : mem) (p : Z) : Z :=
   if negb (Z.land p (ALLOC_ALIGN - 1) =? 0) then 0
   else let node := w64 (p - NODE) in
-       if is_used m node then node else 0.
+       if is_used m node && negb (n_size m node =? 0) then node else 0.
 
 (* Heap:add_memory_region(&buffer[0], SIZE) on a zeroed Heap *)
 Definition heap_init (c : hcfg) (s : hstate) : hres hstate :=
